@@ -33,9 +33,10 @@ class _Stub:
         pass
 
 
-def carrier_for(c):
+def carrier_for(c, car=None):
     R.GreedyManager = _Stub
-    car = R.Carrier()
+    if car is None:
+        car = R.Carrier()
     xs = [Fr(c["ox"]) / 2]
     for g in c["gx"]:
         xs.append(xs[-1] + Fr(g) / 2)
@@ -170,7 +171,18 @@ def fl(v):
 
 
 def run_solve(c):
-    car, ifile, cells, xs, ys = carrier_for(c)
+    car = None
+    if c.get("prev"):
+        # rect.main keeps ONE Carrier and loads one module after the other into it: an earlier module (another
+        # occupancy, possibly another grid) is solved on the same object first
+        car, ifile0, _, _, _ = carrier_for(c["prev"])
+        if car.theoreticalBestArea > 0:
+            try:
+                with contextlib.redirect_stdout(io.StringIO()):
+                    R.solve(car, ifile0, 2.0, (int(c["prev"].get("b", 0)), 1), c["prev"]["k"])
+            except Exception:
+                pass
+    car, ifile, cells, xs, ys = carrier_for(c, car)
     if car.theoreticalBestArea <= 0:
         return dict(nt=False, cls=["empty-occupancy"])
     nr, nc = len(ys) - 1, len(xs) - 1
@@ -182,7 +194,10 @@ def run_solve(c):
         r, cc = cells[b]
         w, h = xs[cc + 1] - xs[cc], ys[r + 1] - ys[r]
         if sel[(r, cc)] != 16 * Fr(c["occ"][r][cc], 4) * w * h or real[(r, cc)] != 16 * w * h:
-            raise RuntimeError("case is not exact: area() differs from the rational value")
+            raise Violation("area() of cell %s (x %s..%s, y %s..%s, occupancy %s/4, factor 16) is %r / %r; the cost coefficients must be %s / %s%s" % (
+                (r, cc), float(xs[cc]), float(xs[cc + 1]), float(ys[r]), float(ys[r + 1]), c["occ"][r][cc], sel[(r, cc)], real[(r, cc)],
+                16 * Fr(c["occ"][r][cc], 4) * w * h, 16 * w * h, " (the same Carrier solved another module before)" if c.get("prev") else ""),
+                "cost-coefficients")
     shapes = admitted_shapes(nr, nc, k)
     cost = {}
     for sh in shapes:
@@ -201,7 +216,7 @@ def run_solve(c):
     if not rects:
         if exists:
             raise Violation("%s: solve found nothing but a shape of cost %d exists" % (what, hi), "solve-missed")
-        return dict(nt=nr * nc >= 4 and k >= 2, cls=["unsat", "bound-" + c["bound"]] + ([] if cost else ["no-shape-exists"]))
+        return dict(nt=nr * nc >= 4 and k >= 2, cls=["unsat", "bound-" + c["bound"]] + ([] if cost else ["no-shape-exists"]) + (["carrier-reused"] if c.get("prev") else []))
     if not exists:
         raise Violation("%s: solve returned %s but no admitted shape reaches the bound (max %d)" % (what, rects, hi), "solve-invented")
     # the rectangles are the boxes of an admitted shape
@@ -222,7 +237,7 @@ def run_solve(c):
         raise Violation("%s: returned rectangles %s are not the boxes of a %d-box single-trunk orthogon" % (what, rects, k), "solve-not-admitted")
     if cost[sh] < bound or last != (cost[sh] + 1, 1):
         raise Violation("%s: returned shape %s has cost %d, solve reports %s (bound %d)" % (what, rects, cost[sh], last, bound), "solve-cost")
-    return dict(nt=nr * nc >= 4 and k >= 2, cls=["sat", "bound-" + c["bound"]])
+    return dict(nt=nr * nc >= 4 and k >= 2, cls=["sat", "bound-" + c["bound"]] + (["carrier-reused"] if c.get("prev") else []))
 
 
 @st.composite
@@ -246,6 +261,16 @@ def grid_s(draw, max_dim=3, ks=(1, 2, 2, 3), max_cells_k3=9):
 def solve_s(draw):
     c = draw(grid_s(3, (1, 2, 2, 3), 6))
     c["bound"] = draw(st.sampled_from(["below", "min", "mid", "mid", "max", "max", "above"]))
+    if draw(st.booleans()):
+        if draw(st.booleans()):  # same grid, another module (other occupancies)
+            prev = dict(c)
+            prev["occ"] = [[draw(_i(0, 4)) for _ in row] for row in c["occ"]]
+            prev["perm"] = None
+        else:
+            prev = draw(grid_s(3, (1, 2), 6))
+        prev["b"] = draw(_i(-5, 20))
+        prev.pop("bound", None)
+        c["prev"] = prev
     return c
 
 
@@ -273,5 +298,5 @@ def subchecks():
         Sub("shapes", run_models, enum=all_small, exhaustive=True,
             desc="every grid shape up to 3x3 (quick) / 4x4 (thorough) for k = 1..3 on five coordinate systems (origins 0 / non-0, steps 0.5-2.5)"),
         Sub("solve", run_solve, strategy=solve_s(), n_quick=3000, n_thorough=40000,
-            required=("sat", "unsat", "bound-mid", "bound-max", "bound-above")),
+            required=("sat", "unsat", "bound-mid", "bound-max", "bound-above", "carrier-reused")),
     ]
